@@ -36,7 +36,8 @@ variable {V E : Type}
 abbrev FineCall (filt : Nat → List Nat) (p : Prog V E) : Prop := Fine filt (fun _ => True) p
 
 /-- One call on a document in a state satisfying the invariant returns the unguarded uncached answer
-    and re-establishes the invariant. -/
+    and re-establishes the invariant.
+    Nesting bound (explicit hypotheses `hN`, `hD`): all ranks are below `N` and `N ≤ maxNestedGets = 64`, i.e. the typed loads of the document nest fewer than 64 deep, so the `MAX_NESTED_GETS` branch of `get` is never taken. For a well-founded document that nests deeper the code answers an error where the unguarded evaluation has a value; this theorem says nothing about it. -/
 theorem call_spec {d : Doc V E} {filt : Nat → List Nat} {rank : Nat → Nat} (wf : WF d filt rank)
     {N : Nat} (hN : ∀ r, rank r < N) (hD : N ≤ maxNestedGets) (cfg : Cfg) (ht : cfg.trustErr = false) (fuel : Nat) (hf : N ≤ fuel)
     (st : St V E) (hi : Inv d filt (ans d rank) st) (p : Prog V E) (hp : FineCall filt p) :
@@ -45,6 +46,7 @@ theorem call_spec {d : Doc V E} {filt : Nat → List Nat} {rank : Nat → Nat} (
   exact run_spec cfg wf.dec ((getM_spec wf cfg ht fuel).mono hf) (hp.mono fun r _ => hN r) [] st (by simp)
     (by simpa using hD) hi
 
+/-- Nesting bound (explicit hypotheses `hN`, `hD`): all ranks are below `N` and `N ≤ maxNestedGets = 64`, i.e. the typed loads of the document nest fewer than 64 deep, so the `MAX_NESTED_GETS` branch of `get` is never taken. For a well-founded document that nests deeper the code answers an error where the unguarded evaluation has a value; this theorem says nothing about it. -/
 theorem runCalls_spec {d : Doc V E} {filt : Nat → List Nat} {rank : Nat → Nat} (wf : WF d filt rank)
     {N : Nat} (hN : ∀ r, rank r < N) (hD : N ≤ maxNestedGets) (cfg : Cfg) (ht : cfg.trustErr = false) (fuel : Nat) (hf : N ≤ fuel)
     (calls : List (Prog V E)) : ∀ (st : St V E), Inv d filt (ans d rank) st → (∀ p ∈ calls, FineCall filt p) →
@@ -58,7 +60,8 @@ theorem runCalls_spec {d : Doc V E} {filt : Nat → List Nat} {rank : Nat → Na
     rw [h.1, ih _ h.2 (fun q hq => hc q (by simp [hq]))]
 
 /-- **C12, reference semantics.** Whatever the cache configuration and however long the history, the
-    answers are the plain recursive evaluation of the calls: no guard, no cache, no history. -/
+    answers are the plain recursive evaluation of the calls: no guard, no cache, no history.
+    Nesting bound (explicit hypotheses `hN`, `hD`): all ranks are below `N` and `N ≤ maxNestedGets = 64`, i.e. the typed loads of the document nest fewer than 64 deep, so the `MAX_NESTED_GETS` branch of `get` is never taken. For a well-founded document that nests deeper the code answers an error where the unguarded evaluation has a value; this theorem says nothing about it. -/
 theorem outputs_spec_partial {d : Doc V E} {filt : Nat → List Nat} {rank : Nat → Nat} (wf : WF d filt rank)
     {N : Nat} (hN : ∀ r, rank r < N) (hD : N ≤ maxNestedGets) (cfg : Cfg) (ht : cfg.trustErr = false) (fuel : Nat) (hf : N ≤ fuel)
     (calls : List (Prog V E)) (hc : ∀ p ∈ calls, FineCall filt p) :
@@ -67,14 +70,16 @@ theorem outputs_spec_partial {d : Doc V E} {filt : Nat → List Nat} {rank : Nat
 
 /-- **C12, first sentence.** A document opened with object and/or stream cache returns, call by call,
     what the same document opened without caches returns — for all four configurations (`cfg` is
-    arbitrary), all call sequences, all well-founded documents. -/
+    arbitrary), all call sequences, all well-founded documents.
+    Nesting bound (explicit hypotheses `hN`, `hD`): all ranks are below `N` and `N ≤ maxNestedGets = 64`, i.e. the typed loads of the document nest fewer than 64 deep, so the `MAX_NESTED_GETS` branch of `get` is never taken. For a well-founded document that nests deeper the code answers an error where the unguarded evaluation has a value; this theorem says nothing about it. -/
 theorem cache_transparent_partial {d : Doc V E} {filt : Nat → List Nat} {rank : Nat → Nat} (wf : WF d filt rank)
     {N : Nat} (hN : ∀ r, rank r < N) (hD : N ≤ maxNestedGets) (cfg : Cfg) (ht : cfg.trustErr = false) (fuel : Nat) (hf : N ≤ fuel)
     (calls : List (Prog V E)) (hc : ∀ p ∈ calls, FineCall filt p) :
     outputs d cfg fuel calls = outputs d Cfg.none fuel calls := by
   rw [outputs_spec_partial wf hN hD cfg ht fuel hf calls hc, outputs_spec_partial wf hN hD Cfg.none rfl fuel hf calls hc]
 
-/-- the four named configurations, spelled out -/
+/-- the four named configurations, spelled out
+    Nesting bound (explicit hypotheses `hN`, `hD`): all ranks are below `N` and `N ≤ maxNestedGets = 64`, i.e. the typed loads of the document nest fewer than 64 deep, so the `MAX_NESTED_GETS` branch of `get` is never taken. For a well-founded document that nests deeper the code answers an error where the unguarded evaluation has a value; this theorem says nothing about it. -/
 theorem cache_transparent_four_partial {d : Doc V E} {filt : Nat → List Nat} {rank : Nat → Nat} (wf : WF d filt rank)
     {N : Nat} (hN : ∀ r, rank r < N) (hD : N ≤ maxNestedGets) (fuel : Nat) (hf : N ≤ fuel)
     (calls : List (Prog V E)) (hc : ∀ p ∈ calls, FineCall filt p) :
@@ -85,7 +90,8 @@ theorem cache_transparent_four_partial {d : Doc V E} {filt : Nat → List Nat} {
    cache_transparent_partial wf hN hD _ rfl fuel hf calls hc⟩
 
 /-- **C12, second sentence.** The answer to a call never depends on which calls came before it: after
-    any prefix `pre`, the call `q` answers what it answers as the first call on a fresh document. -/
+    any prefix `pre`, the call `q` answers what it answers as the first call on a fresh document.
+    Nesting bound (explicit hypotheses `hN`, `hD`): all ranks are below `N` and `N ≤ maxNestedGets = 64`, i.e. the typed loads of the document nest fewer than 64 deep, so the `MAX_NESTED_GETS` branch of `get` is never taken. For a well-founded document that nests deeper the code answers an error where the unguarded evaluation has a value; this theorem says nothing about it. -/
 theorem answer_independent_of_prefix_partial {d : Doc V E} {filt : Nat → List Nat} {rank : Nat → Nat}
     (wf : WF d filt rank) {N : Nat} (hN : ∀ r, rank r < N) (hD : N ≤ maxNestedGets) (cfg : Cfg) (ht : cfg.trustErr = false)
     (fuel : Nat) (hf : N ≤ fuel) (pre : List (Prog V E)) (q : Prog V E)
@@ -99,7 +105,8 @@ theorem answer_independent_of_prefix_partial {d : Doc V E} {filt : Nat → List 
       outputs_spec_partial wf hN hD cfg ht fuel hf [q] (by intro p hp; simp at hp; subst hp; exact hq)]
   simp
 
-/-- The fuel of the model is never exhausted: every call returns a value or an error. -/
+/-- The fuel of the model is never exhausted: every call returns a value or an error.
+    Nesting bound (explicit hypotheses `hN`, `hD`): all ranks are below `N` and `N ≤ maxNestedGets = 64`, i.e. the typed loads of the document nest fewer than 64 deep, so the `MAX_NESTED_GETS` branch of `get` is never taken. For a well-founded document that nests deeper the code answers an error where the unguarded evaluation has a value; this theorem says nothing about it. -/
 theorem outputs_total_partial {d : Doc V E} {filt : Nat → List Nat} {rank : Nat → Nat} (wf : WF d filt rank)
     {N : Nat} (hN : ∀ r, rank r < N) (hD : N ≤ maxNestedGets) (cfg : Cfg) (ht : cfg.trustErr = false) (fuel : Nat) (hf : N ≤ fuel)
     (calls : List (Prog V E)) (hc : ∀ p ∈ calls, FineCall filt p) :
@@ -212,7 +219,8 @@ theorem generated_doc_wf (d : CacheDoc.Desc) (h : CacheDoc.okRanks d = true) :
 
 /-- **C12 on the generated documents.** For every description that passes the check, every cache
     configuration and every history of the property's call kinds (typed loads, raw resolves, `Stream::data`,
-    `raw_image_data`, `image_data`, page look-ups): the answers are those of the uncached document. -/
+    `raw_image_data`, `image_data`, page look-ups): the answers are those of the uncached document.
+    Nesting bound (explicit hypothesis): `d.objs.length + 2 ≤ maxNestedGets = 64`, i.e. generated documents of at most 62 objects (the generators stay far below); beyond that the `MAX_NESTED_GETS` branch of `get` could be taken and this theorem says nothing. -/
 theorem generated_cache_transparent (d : CacheDoc.Desc) (h : CacheDoc.okRanks d = true) (cfg : Cfg)
     (ht : cfg.trustErr = false) (root : CacheDoc.R) (calls : List CacheDoc.CallK) (fuel : Nat)
     (hf : d.objs.length + 2 ≤ fuel) (hsmall : d.objs.length + 2 ≤ maxNestedGets) :
